@@ -391,7 +391,165 @@ func c13CsvOptsFor(r *RNG, d c13Dialect, tags map[string]bool) c13CsvOpts {
 
 // ---------------------------------------------------------------- per-format generators
 
+// c13Gen generates a statement and then lets the account flags collide now and then (see c13CollideFlags). The collision
+// draws come after every draw of the statement itself, so the statement of a (seed, stream, index) does not depend on them.
 func c13Gen(r *RNG, imp string) *c13Stmt {
+	st := c13GenBase(r, imp)
+	c13CollideFlags(r, st)
+	return st
+}
+
+// ---------------------------------------------------------------- account flags that name the same account
+//
+// The importers with several account flags (revolut2: --fee; com.wise: --fee, --trading; ch.swissquote and
+// us.interactivebrokers: --dividend, --tax, --fee, --interest, --trading) book every leg of a row between the import
+// account and one of these accounts or Expenses:TBD. Nothing requires the flags to name different accounts: the C13 theorems
+// assume only that every flag differs from the import account (and the import account from Expenses:TBD). So two, three or
+// all flags may name one account, and a flag may name Expenses:TBD; the row's effect on the import account must not change.
+// The generator's reading of the statement (Items) is about the import account only and stays as it is.
+
+const c13TBD = "Expenses:TBD"
+
+// c13FlagSlots: the positions in st.Flags of the account flags other than the import account.
+func c13FlagSlots(st *c13Stmt) []int {
+	if c13Dialects[st.Imp].JSON {
+		return nil // ch.viac: a commodity and a date
+	}
+	var res []int
+	for j := 1; j < len(st.Flags); j++ {
+		res = append(res, j)
+	}
+	return res
+}
+
+func c13SetFlag(st *c13Stmt, j int, v string) {
+	st.Flags[j] = v
+	st.Args[2*j+1] = v
+}
+
+var c13PartitionCache = map[int][][]int{}
+
+// c13Partitions lists the set partitions of {TBD, flag 1, …, flag k} as restricted growth strings a[0..k] (a[0] = 0 is the
+// block of Expenses:TBD): Bell(k+1) of them (k = 1: 2, k = 2: 5, k = 5: 203). The first one has every flag alone in its block.
+func c13Partitions(k int) [][]int {
+	if ps, ok := c13PartitionCache[k]; ok {
+		return ps
+	}
+	var res [][]int
+	a := make([]int, k+1)
+	var rec func(i, max int)
+	rec = func(i, max int) {
+		if i > k {
+			res = append(res, append([]int{}, a...))
+			return
+		}
+		for b := max + 1; b >= 0; b-- { // new block first: the identity partition comes first
+			a[i] = b
+			m := max
+			if b > m {
+				m = b
+			}
+			rec(i+1, m)
+		}
+	}
+	rec(1, 0)
+	c13PartitionCache[k] = res
+	return res
+}
+
+// c13ApplyPartition: the flags of one block all name the account drawn for the block's first flag; the flags in the block
+// of TBD name Expenses:TBD. It also tags the statement with what coincides.
+func c13ApplyPartition(st *c13Stmt, rgs []int) {
+	slots := c13FlagSlots(st)
+	first := map[int]string{0: c13TBD}
+	for i, j := range slots {
+		b := rgs[i+1]
+		if _, ok := first[b]; !ok {
+			first[b] = st.Flags[j]
+		}
+		c13SetFlag(st, j, first[b])
+	}
+	c13TagFlags(st)
+}
+
+func c13TagFlags(st *c13Stmt) {
+	slots := c13FlagSlots(st)
+	count := map[string]int{}
+	for _, j := range slots {
+		count[st.Flags[j]]++
+	}
+	tags := map[string]bool{}
+	for a, n := range count {
+		switch {
+		case a == c13TBD:
+			tags["flag-is-tbd"] = true
+		case n == 2:
+			tags["flags-equal"] = true
+		case n > 2:
+			tags["flags-3-equal"] = true
+		}
+		if a == c13TBD && n > 1 {
+			tags["flags-equal"] = true
+		}
+	}
+	for _, t := range st.Tags {
+		delete(tags, t)
+	}
+	for t := range tags {
+		st.Tags = append(st.Tags, t)
+	}
+	sort.Strings(st.Tags)
+}
+
+// c13CollideFlags: half of the statements of an importer with several account flags keep the accounts as drawn; the others
+// get a pair, a triple, all of them, one of them and Expenses:TBD, or an arbitrary partition merged.
+func c13CollideFlags(r *RNG, st *c13Stmt) {
+	slots := c13FlagSlots(st)
+	k := len(slots)
+	if k == 0 || r.Chance(1, 2) {
+		return
+	}
+	rgs := make([]int, k+1)
+	for i := 1; i <= k; i++ {
+		rgs[i] = i // every flag alone
+	}
+	merge := func(n int) { // n flags (at random positions) into one block
+		perm := make([]int, k)
+		for i := range perm {
+			perm[i] = i + 1
+		}
+		for i := k - 1; i > 0; i-- {
+			j := r.Intn(i + 1)
+			perm[i], perm[j] = perm[j], perm[i]
+		}
+		if n > k {
+			n = k
+		}
+		for _, i := range perm[:n] {
+			rgs[i] = perm[0]
+		}
+	}
+	switch q := r.Intn(100); {
+	case q < 35:
+		merge(2)
+	case q < 50:
+		merge(3)
+	case q < 60:
+		merge(k)
+	case q < 75:
+		rgs[1+r.Intn(k)] = 0 // one flag names Expenses:TBD
+	case q < 85:
+		merge(2)
+		rgs[1+r.Intn(k)] = 0 // … which may pull the pair's account or another one to TBD
+	default:
+		ps := c13Partitions(k)
+		copy(rgs, ps[r.Intn(len(ps))])
+	}
+	// blocks are named by a member here, not in growth order: c13ApplyPartition only needs equal numbers for equal accounts
+	c13ApplyPartition(st, rgs)
+}
+
+func c13GenBase(r *RNG, imp string) *c13Stmt {
 	switch imp {
 	case "ch.swisscard2":
 		return c13GenSwisscard2(r)
